@@ -12,7 +12,7 @@
     [zone_at O w] the zone selected for the value TZ has in world [w], [K mono w] the reading of the
     stamping clock, [elapsed ops] the time that passed (sum of the Advance steps). *)
 From Coq Require Import ZArith List Bool String.
-From V Require Import Base.Int Base.IO Gen.LocalCache Model.C18 Proofs.C18.
+From V Require Import Base.Int Base.IO Gen.LocalCache Model.C18 Proofs.C18 Proofs.C18Select Proofs.C18Ops.
 Import ListNotations.
 Open Scope Z_scope.
 
@@ -207,3 +207,444 @@ Example C18_demo_direction : forall mono,
   [VInt 11640; VTup [VInt 4380]; VTup []; VTup [VInt 11640]; VInt 4380].
 Proof. exact demo_direction. Qed.
 Print Assumptions C18_demo_direction.
+
+(** ** Selection in explicit form (Proofs/C18Select.v).
+    [candidates name]: the paths a name stands for, in the order they are tried (the name itself when
+    absolute, else dir/name for the zoneinfo directories of the source in their order);
+    [opened w name]: the first candidate that opens; [shape_of var]: unset / empty / "localtime" /
+    colon + rest / plain; [route O w sh]: what TimeZone::local answers for that shape (None = Err);
+    [system_route O w]: fallback_timezone; [parsed f]: the zone of a file that opened and parsed. *)
+
+(* the literals of the tree under test *)
+Theorem C18_constants_this_tree :
+  LC_ZONE_INFO_DIRECTORIES =
+    [B"/usr/share/zoneinfo"; B"/share/zoneinfo"; B"/etc/zoneinfo"; B"/usr/share/lib/zoneinfo"] /\
+  LC_TZDB_LOCATION = B"/usr/share/zoneinfo" /\
+  LC_LOCALTIME_NAME = B"localtime" /\ LC_UNSET_NAME = B"localtime" /\
+  LC_LOCALTIME_FILE = B"/etc/localtime" /\ LC_MTIME_FILE = B"/etc/localtime" /\
+  [LC_FILE_PREFIX] = B":" /\ LC_ENV_NAME = B"TZ".
+Proof. exact constants_this_tree. Qed.
+Print Assumptions C18_constants_this_tree.
+
+(* the file used is the candidate of LEAST index that opens (parsable or not) *)
+Theorem C18_find_tz_file_least : forall zone (w : world zone) name f,
+  find_tz_file w name = Some f <->
+  exists i p, nth_error (candidates name) i = Some p /\ w_files w p = Some f /\
+              forall j q, (j < i)%nat -> nth_error (candidates name) j = Some q -> w_files w q = None.
+Proof. exact @find_tz_file_least. Qed.
+Print Assumptions C18_find_tz_file_least.
+
+(* nothing is found exactly when no candidate opens *)
+Theorem C18_find_tz_file_none : forall zone (w : world zone) name,
+  find_tz_file w name = None <-> forall p, In p (candidates name) -> w_files w p = None.
+Proof. exact @find_tz_file_none. Qed.
+Print Assumptions C18_find_tz_file_none.
+
+(* absolute paths are opened directly *)
+Theorem C18_find_tz_file_absolute : forall zone (w : world zone) p,
+  candidates (47 :: p) = [47 :: p] /\ find_tz_file w (47 :: p) = w_files w (47 :: p).
+Proof. exact (fun zone w p => conj (candidates_absolute p) (@find_tz_file_absolute zone w p)). Qed.
+Print Assumptions C18_find_tz_file_absolute.
+
+(* relative names: the four directories, in this order, first that opens *)
+Theorem C18_find_tz_file_relative : forall zone (w : world zone) name, is_absolute name = false ->
+  find_tz_file w name =
+    first_some [w_files w (B"/usr/share/zoneinfo" ++ 47 :: name); w_files w (B"/share/zoneinfo" ++ 47 :: name);
+                w_files w (B"/etc/zoneinfo" ++ 47 :: name); w_files w (B"/usr/share/lib/zoneinfo" ++ 47 :: name)].
+Proof. exact @find_tz_file_relative. Qed.
+Print Assumptions C18_find_tz_file_relative.
+
+Theorem C18_is_absolute_spec : forall name, is_absolute name = true <-> exists p, name = 47 :: p.
+Proof. exact is_absolute_spec. Qed.
+Print Assumptions C18_is_absolute_spec.
+
+(* the shapes partition the values of the variable *)
+Theorem C18_shape_of_spec : forall var,
+  match shape_of var with
+  | ShUnset => var = None
+  | ShEmpty => var = Some []
+  | ShLocaltime => var = Some LC_LOCALTIME_NAME
+  | ShColon rest => var = Some (LC_FILE_PREFIX :: rest)
+  | ShPlain s => var = Some s /\ s <> [] /\ s <> LC_LOCALTIME_NAME /\ forall rest, s <> LC_FILE_PREFIX :: rest
+  end.
+Proof. exact shape_of_spec. Qed.
+Print Assumptions C18_shape_of_spec.
+
+Theorem C18_shape_of_complete :
+  shape_of None = ShUnset /\ shape_of (Some []) = ShEmpty /\ shape_of (Some LC_LOCALTIME_NAME) = ShLocaltime /\
+  (forall rest, shape_of (Some (LC_FILE_PREFIX :: rest)) = ShColon rest) /\
+  (forall s, s <> [] -> s <> LC_LOCALTIME_NAME -> (forall rest, s <> LC_FILE_PREFIX :: rest) ->
+             shape_of (Some s) = ShPlain s).
+Proof. exact (conj shape_of_unset (conj shape_of_empty (conj shape_of_localtime (conj shape_of_colon shape_of_plain)))). Qed.
+Print Assumptions C18_shape_of_complete.
+
+(* TimeZone::local, for every value: the route of its shape *)
+Theorem C18_tz_local_route : forall zone HASH ARG ANS (O : oracle zone HASH ARG ANS) (w : world zone) var,
+  tz_local O w var =
+    match shape_of var with
+    | ShUnset => parsed (w_files w LC_LOCALTIME_FILE)
+    | ShLocaltime => parsed (w_files w LC_LOCALTIME_FILE)
+    | ShEmpty => Some (o_utc O)
+    | ShColon rest => parsed (opened w rest)
+    | ShPlain s => match opened w s with Some f => parsed (Some f) | None => o_rule O (trim_ws s) end
+    end.
+Proof. exact @tz_local_route. Qed.
+Print Assumptions C18_tz_local_route.
+
+(* ":" + absolute path: the colon is stripped and that file is opened directly *)
+Theorem C18_route_colon_absolute : forall zone HASH ARG ANS (O : oracle zone HASH ARG ANS) (w : world zone) p,
+  tz_local O w (Some (LC_FILE_PREFIX :: 47 :: p)) = parsed (w_files w (47 :: p)).
+Proof. exact @route_colon_absolute. Qed.
+Print Assumptions C18_route_colon_absolute.
+
+(* ":" + relative name: first directory that has it; never read as a rule *)
+Theorem C18_route_colon_relative : forall zone HASH ARG ANS (O : oracle zone HASH ARG ANS) (w : world zone) rest,
+  is_absolute rest = false ->
+  tz_local O w (Some (LC_FILE_PREFIX :: rest)) =
+    parsed (first_some (map (fun d => w_files w (d ++ 47 :: rest)) LC_ZONE_INFO_DIRECTORIES)).
+Proof. exact @route_colon_relative. Qed.
+Print Assumptions C18_route_colon_relative.
+
+Theorem C18_route_plain_absolute : forall zone HASH ARG ANS (O : oracle zone HASH ARG ANS) (w : world zone) p,
+  tz_local O w (Some (47 :: p)) =
+    match w_files w (47 :: p) with Some f => parsed (Some f) | None => o_rule O (trim_ws (47 :: p)) end.
+Proof. exact @route_plain_absolute. Qed.
+Print Assumptions C18_route_plain_absolute.
+
+(* relative name: dir_i/name for the least i that opens; if none opens, the trimmed text as a POSIX rule *)
+Theorem C18_route_plain_relative : forall zone HASH ARG ANS (O : oracle zone HASH ARG ANS) (w : world zone) s,
+  shape_of (Some s) = ShPlain s -> is_absolute s = false ->
+  tz_local O w (Some s) =
+    match first_some (map (fun d => w_files w (d ++ 47 :: s)) LC_ZONE_INFO_DIRECTORIES) with
+    | Some f => parsed (Some f)
+    | None => o_rule O (trim_ws s)
+    end.
+Proof. exact @route_plain_relative. Qed.
+Print Assumptions C18_route_plain_relative.
+
+(* exactly when the TZ route fails *)
+Theorem C18_route_fails_iff : forall zone HASH ARG ANS (O : oracle zone HASH ARG ANS) (w : world zone) sh,
+  route O w sh = None <->
+  match sh with
+  | ShUnset | ShLocaltime => forall z, w_files w LC_LOCALTIME_FILE <> Some (Some z)
+  | ShEmpty => False
+  | ShColon rest => forall z, opened w rest <> Some (Some z)
+  | ShPlain s => opened w s = Some None \/ (opened w s = None /\ o_rule O (trim_ws s) = None)
+  end.
+Proof. exact @route_fails_iff. Qed.
+Print Assumptions C18_route_fails_iff.
+
+(* exactly when the system zone route fails (it looks under TZDB_LOCATION only) *)
+Theorem C18_system_route_fails_iff : forall zone HASH ARG ANS (O : oracle zone HASH ARG ANS) (w : world zone),
+  fallback_timezone O w = system_route O w /\
+  (system_route O w = None <->
+   (o_iana O = None \/
+    exists n, o_iana O = Some n /\ forall z, w_files w (LC_TZDB_LOCATION ++ 47 :: n) <> Some (Some z))).
+Proof. exact (fun zone HASH ARG ANS O w => conj (fallback_system_route O w) (system_route_fails_iff O w)). Qed.
+Print Assumptions C18_system_route_fails_iff.
+
+(* THE CHAIN: zone chosen = first of [TZ route; system zone route] that succeeds, else UTC *)
+Theorem C18_chain_first : forall zone HASH ARG ANS (O : oracle zone HASH ARG ANS) (w : world zone) var,
+  current_zone O w var =
+    match first_some [route O w (shape_of var); system_route O w] with Some z => z | None => o_utc O end.
+Proof. exact @chain_first. Qed.
+Print Assumptions C18_chain_first.
+
+(* ... and which stage is taken (the failure conditions are C18_route_fails_iff / C18_system_route_fails_iff) *)
+Theorem C18_chain_stages : forall zone HASH ARG ANS (O : oracle zone HASH ARG ANS) (w : world zone) var,
+  (exists z, route O w (shape_of var) = Some z /\ current_zone O w var = z) \/
+  (route O w (shape_of var) = None /\ exists z, system_route O w = Some z /\ current_zone O w var = z) \/
+  (route O w (shape_of var) = None /\ system_route O w = None /\ current_zone O w var = o_utc O).
+Proof. exact @chain_stages. Qed.
+Print Assumptions C18_chain_stages.
+
+(* a file of that name opens but does not parse: NOT tried as a rule, system zone *)
+Theorem C18_unparsable_file_not_rule : forall zone HASH ARG ANS (O : oracle zone HASH ARG ANS) (w : world zone) s,
+  shape_of (Some s) = ShPlain s -> opened w s = Some None ->
+  current_zone O w (Some s) = match system_route O w with Some z => z | None => o_utc O end.
+Proof. exact @unparsable_file_not_rule. Qed.
+Print Assumptions C18_unparsable_file_not_rule.
+
+Theorem C18_colon_failure_system : forall zone HASH ARG ANS (O : oracle zone HASH ARG ANS) (w : world zone) rest,
+  (forall z, opened w rest <> Some (Some z)) ->
+  current_zone O w (Some (LC_FILE_PREFIX :: rest)) = match system_route O w with Some z => z | None => o_utc O end.
+Proof. exact @colon_failure_system. Qed.
+Print Assumptions C18_colon_failure_system.
+
+Theorem C18_garbage_system : forall zone HASH ARG ANS (O : oracle zone HASH ARG ANS) (w : world zone) s,
+  shape_of (Some s) = ShPlain s -> opened w s = None -> o_rule O (trim_ws s) = None ->
+  current_zone O w (Some s) = match system_route O w with Some z => z | None => o_utc O end.
+Proof. exact @garbage_system. Qed.
+Print Assumptions C18_garbage_system.
+
+(* TZ="" is UTC whatever the files and the system zone are *)
+Theorem C18_empty_is_utc : forall zone HASH ARG ANS (O : oracle zone HASH ARG ANS) (w : world zone),
+  current_zone O w (Some []) = o_utc O.
+Proof. exact @empty_is_utc. Qed.
+Print Assumptions C18_empty_is_utc.
+
+(* at the level of the raw variable *)
+Theorem C18_zone_at_chain : forall zone HASH ARG ANS (O : oracle zone HASH ARG ANS) (w : world zone),
+  zone_at O w = match first_some [route O w (shape_of (env_of (w_tz w))); system_route O w] with
+                | Some z => z | None => o_utc O end.
+Proof. exact @zone_at_chain. Qed.
+Print Assumptions C18_zone_at_chain.
+
+Theorem C18_zone_at_empty : forall zone HASH ARG ANS (O : oracle zone HASH ARG ANS) (w : world zone),
+  w_tz w = Some [] -> zone_at O w = o_utc O.
+Proof. exact @zone_at_empty. Qed.
+Print Assumptions C18_zone_at_empty.
+
+Theorem C18_zone_at_not_unicode : forall zone HASH ARG ANS (O : oracle zone HASH ARG ANS) (w : world zone) b,
+  w_tz w = Some b -> utf8_valid b = false ->
+  zone_at O w = current_zone O w None /\ shape_of (env_of (w_tz w)) = ShUnset.
+Proof. exact @zone_at_not_unicode. Qed.
+Print Assumptions C18_zone_at_not_unicode.
+
+(* TZ unset: /etc/localtime, else the system zone file, else UTC *)
+Theorem C18_zone_at_unset : forall zone HASH ARG ANS (O : oracle zone HASH ARG ANS) (w : world zone),
+  w_tz w = None ->
+  zone_at O w = match first_some [parsed (w_files w LC_LOCALTIME_FILE); system_route O w] with
+                | Some z => z | None => o_utc O end.
+Proof. exact @zone_at_unset. Qed.
+Print Assumptions C18_zone_at_unset.
+
+Example C18_selection_inhabited :
+  sel_zone sel_world (Some B"Foo") = 3600 /\ sel_zone sel_world (Some B":Foo") = 3600 /\
+  sel_zone sel_world (Some B"Bar") = -3600 /\
+  sel_zone sel_world (Some B"/etc/zoneinfo/Foo") = 7200 /\ sel_zone sel_world (Some B":/etc/zoneinfo/Foo") = 7200 /\
+  sel_zone sel_world (Some []) = 0 /\ sel_zone sel_world (Some B"localtime") = 32400 /\ sel_zone sel_world None = 32400 /\
+  z_off (zone_at (xoracle sel_world) (set_tz (xinit sel_world) (Some [255; 254]))) = 32400 /\
+  sel_zone sel_world (Some B"AAA-3") = 10800 /\ sel_zone sel_world (Some B" AAA-3 ") = 10800 /\
+  sel_zone sel_world (Some B"Junk") = 18000 /\ sel_zone sel_world (Some B"/tmp/bad") = 18000 /\
+  sel_zone sel_world (Some B":AAA-3") = 18000 /\ sel_zone sel_world (Some B"!!") = 18000 /\
+  sel_zone sel_world_bare None = 0 /\ sel_zone sel_world_bare (Some B"!!") = 0 /\ sel_zone sel_world_bare (Some B"Foo") = 3600.
+Proof. exact selection_inhabited. Qed.
+Print Assumptions C18_selection_inhabited.
+
+Example C18_shapes_inhabited :
+  shape_of (Some B"Foo") = ShPlain B"Foo" /\ shape_of (Some B":Foo") = ShColon B"Foo" /\
+  shape_of (Some B"localtime") = ShLocaltime /\ shape_of (Some B"") = ShEmpty /\
+  shape_of (env_of (Some [255; 254])) = ShUnset /\
+  opened (xinit sel_world) B"Junk" = Some None /\ opened (xinit sel_world) B"!!" = None /\
+  system_route (xoracle sel_world) (xinit sel_world) = Some (zfixed 18000) /\
+  system_route (xoracle sel_world_bare) (xinit sel_world_bare) = None.
+Proof. exact shapes_inhabited. Qed.
+Print Assumptions C18_shapes_inhabited.
+
+(** ** The dispatcher, the steps of a history, the cache check written out (Proofs/C18Ops.v) *)
+
+Theorem C18_dispatch : forall op args,
+  run op args =
+    if op_is op "lc.history" then
+      match args with
+      | [VTup steps; w; VTup times] =>
+          match dec_world w, dec_steps steps, dec_times times with
+          | Some x, Some s, Some t => history x s t
+          | _, _, _ => VBad
+          end
+      | _ => VBad
+      end
+    else VErr B"NOOP".
+Proof. exact dispatch. Qed.
+Print Assumptions C18_dispatch.
+
+Theorem C18_history_answers : forall x steps times,
+  history x steps times =
+    match ops_of steps times 0 0 with
+    | Some ops => VTup (answers (xoracle x) LC_CLOCK_MONOTONIC (init_state (xinit x)) ops)
+    | None => VBad
+    end.
+Proof. exact history_answers. Qed.
+Print Assumptions C18_history_answers.
+
+Theorem C18_xinit_world : forall x,
+  w_tz (xinit x) = None /\ w_wall (xinit x) = 0 /\ w_mono (xinit x) = 0 /\ w_mtime (xinit x) = Some 0 /\
+  forall p, w_files (xinit x) p = assoc p (x_files x).
+Proof. exact xinit_world. Qed.
+Print Assumptions C18_xinit_world.
+
+(* harness steps -> operations: defined when there is one reading per step; the TZ changes,
+   conversions and thread switches in order (sleep / skip / clock-step steps only show in the
+   readings; no Touch is ever produced); at each conversion the world reads the measured clocks *)
+Theorem C18_ops_of_defined : forall steps times wall mono,
+  ops_of steps times wall mono <> None <-> List.length steps = List.length times.
+Proof. exact ops_of_defined. Qed.
+Print Assumptions C18_ops_of_defined.
+
+Theorem C18_ops_of_skeleton : forall steps times wall mono ops,
+  ops_of steps times wall mono = Some ops ->
+  filter (fun o => negb (is_clock_op o)) ops = flat_map op_of_xstep steps.
+Proof. exact ops_of_skeleton. Qed.
+Print Assumptions C18_ops_of_skeleton.
+
+Theorem C18_ops_of_clocks : forall HASH ANS (O : oracle xzone HASH (Z * Z * Z) ANS) mono steps times wall mn ops
+    (s : @state xzone HASH),
+  ops_of steps times wall mn = Some ops -> w_wall (st_world s) = wall -> w_mono (st_world s) = mn ->
+  conv_clocks O mono s ops = conv_readings steps times.
+Proof. exact ops_of_clocks. Qed.
+Print Assumptions C18_ops_of_clocks.
+
+(* every step kind: what it changes (world fields, caches of the threads, answer) *)
+Theorem C18_step_effect : forall zone HASH ARG ANS (O : oracle zone HASH ARG ANS) mono (s : @state zone HASH) (o : op ARG),
+  let w := st_world s in
+  let s' := fst (step O mono s o) in
+  let a := snd (step O mono s o) in
+  w_files (st_world s') = w_files w /\
+  match o with
+  | SetTZ v => a = None /\ caches s' = caches s /\ world_fields (st_world s') = (Some v, w_wall w, w_mono w, w_mtime w)
+  | UnsetTZ => a = None /\ caches s' = caches s /\ world_fields (st_world s') = (None, w_wall w, w_mono w, w_mtime w)
+  | Advance dt => a = None /\ caches s' = caches s /\
+                  world_fields (st_world s') = (w_tz w, w_wall w + dt, w_mono w + dt, w_mtime w)
+  | ClockStep dt => a = None /\ caches s' = caches s /\
+                    world_fields (st_world s') = (w_tz w, w_wall w + dt, w_mono w, w_mtime w)
+  | Touch m => a = None /\ caches s' = caches s /\ world_fields (st_world s') = (w_tz w, w_wall w, w_mono w, m)
+  | Convert local d =>
+      let c' := cache_check O mono w (match st_cur s with Some c => c | None => cache_default O mono w end) in
+      st_world s' = w /\ st_cur s' = Some c' /\ st_stack s' = st_stack s /\
+      a = Some (o_answer O (c_zone c') local d)
+  | Spawn => a = None /\ st_world s' = w /\ st_cur s' = None /\ st_stack s' = st_cur s :: st_stack s
+  | Join => a = None /\ st_world s' = w /\
+            caches s' = match st_stack s with [] => caches s | _ :: _ => st_stack s end
+  end.
+Proof. exact @step_effect. Qed.
+Print Assumptions C18_step_effect.
+
+(* a spawned thread, whatever it does, leaves the spawning thread's cache as it was *)
+Theorem C18_spawn_join : forall zone HASH ARG ANS (O : oracle zone HASH ARG ANS) mono (s : @state zone HASH) (mid : list (op ARG)),
+  Forall (fun o => match o with Spawn | Join => False | _ => True end) mid ->
+  let s' := exec O mono s (Spawn :: mid ++ [Join]) in
+  st_cur s' = st_cur s /\ st_stack s' = st_stack s.
+Proof. exact @spawn_join. Qed.
+Print Assumptions C18_spawn_join.
+
+Theorem C18_join_nothing : forall zone HASH ARG ANS (O : oracle zone HASH ARG ANS) mono (s : @state zone HASH),
+  st_stack s = [] -> fst (step O mono s (@Join ARG)) = s.
+Proof. exact @join_nothing. Qed.
+Print Assumptions C18_join_nothing.
+
+(* the reuse window: stamp not in the future of the stamping clock and less than 1 s old *)
+Theorem C18_cache_check_spec : forall zone HASH ARG ANS (O : oracle zone HASH ARG ANS) mono (w : world zone) (c : @cache zone HASH),
+  cache_check O mono w c =
+    if (c_last_checked c <=? K mono w) && (K mono w - c_last_checked c <? NANOS_PER_SEC) then c
+    else cache_refresh O mono w c.
+Proof. exact @cache_check_spec. Qed.
+Print Assumptions C18_cache_check_spec.
+
+(* Source::new: TZ set (valid UTF-8) -> hash of the value; else mtime of /etc/localtime (wall clock
+   when unavailable) *)
+Theorem C18_source_of_world : forall zone HASH ARG ANS (O : oracle zone HASH ARG ANS) (w : world zone),
+  source_new O w (env_var w LC_ENV_NAME) =
+    match env_of (w_tz w) with
+    | Some b => Environment (o_hash O b)
+    | None => LocalTime (mtime_stamp w)
+    end.
+Proof. exact @source_of_world. Qed.
+Print Assumptions C18_source_of_world.
+
+Theorem C18_cache_refresh_spec : forall zone HASH ARG ANS (O : oracle zone HASH ARG ANS) mono (w : world zone) (c : @cache zone HASH),
+  cache_refresh O mono w c =
+    {| c_zone :=
+         match c_source c, env_of (w_tz w) with
+         | LocalTime m0, None => if m0 =? mtime_stamp w then c_zone c else zone_at O w
+         | Environment h, Some b => if o_hash_eqb O h (o_hash O b) then c_zone c else zone_at O w
+         | LocalTime _, Some _ => zone_at O w
+         | Environment _, None => zone_at O w
+         end;
+       c_source := match env_of (w_tz w) with
+                   | Some b => Environment (o_hash O b)
+                   | None => LocalTime (mtime_stamp w)
+                   end;
+       c_last_checked := K mono w |}.
+Proof. exact @cache_refresh_spec. Qed.
+Print Assumptions C18_cache_refresh_spec.
+
+(** TZ unset: Source::LocalTime and the mtime-based refresh *)
+Theorem C18_default_unset : forall zone HASH ARG ANS (O : oracle zone HASH ARG ANS) mono (w : world zone),
+  env_of (w_tz w) = None ->
+  cache_default O mono w =
+    {| c_zone := current_zone O w None; c_source := LocalTime (mtime_stamp w); c_last_checked := K mono w |}.
+Proof. exact @default_unset. Qed.
+Print Assumptions C18_default_unset.
+
+Theorem C18_unset_convert : forall zone HASH ARG ANS (O : oracle zone HASH ARG ANS) mono (w : world zone)
+    (c : @cache zone HASH) m0 local d,
+  c_source c = LocalTime m0 -> env_of (w_tz w) = None ->
+  cache_offset O mono w c local d =
+    if (c_last_checked c <=? K mono w) && (K mono w - c_last_checked c <? NANOS_PER_SEC)
+    then (c, o_answer O (c_zone c) local d)
+    else let z := if m0 =? mtime_stamp w then c_zone c else current_zone O w None in
+         ({| c_zone := z; c_source := LocalTime (mtime_stamp w); c_last_checked := K mono w |}, o_answer O z local d).
+Proof. exact @unset_convert. Qed.
+Print Assumptions C18_unset_convert.
+
+(* two worlds (file table, mtime and clocks may all differ): /etc/localtime is read again exactly
+   when its mtime stamp changed *)
+Theorem C18_localtime_replaced : forall zone HASH ARG ANS (O : oracle zone HASH ARG ANS) mono (w1 w2 : world zone) local d,
+  env_of (w_tz w1) = None -> env_of (w_tz w2) = None -> K mono w1 + NANOS_PER_SEC <= K mono w2 ->
+  snd (cache_offset O mono w2 (cache_default O mono w1) local d) =
+    o_answer O (if mtime_stamp w1 =? mtime_stamp w2 then current_zone O w1 None else current_zone O w2 None) local d.
+Proof. exact @localtime_replaced. Qed.
+Print Assumptions C18_localtime_replaced.
+
+Theorem C18_touch_noticed : forall zone HASH ARG ANS (O : oracle zone HASH ARG ANS) mono (s : @state zone HASH)
+    (c : @cache zone HASH) m0 m1 local d,
+  st_cur s = Some c -> c_source c = LocalTime m0 -> env_of (w_tz (st_world s)) = None ->
+  w_mtime (st_world s) = Some m1 -> c_last_checked c + NANOS_PER_SEC <= K mono (st_world s) ->
+  st_cur (fst (step O mono s (Convert local d))) =
+    Some {| c_zone := if m0 =? m1 then c_zone c else current_zone O (st_world s) None;
+            c_source := LocalTime m1; c_last_checked := K mono (st_world s) |}.
+Proof. exact @touch_noticed. Qed.
+Print Assumptions C18_touch_noticed.
+
+Theorem C18_switch_selects_again : forall zone HASH ARG ANS (O : oracle zone HASH ARG ANS) mono (w : world zone) (c : @cache zone HASH),
+  (match c_source c, env_of (w_tz w) with
+   | LocalTime _, Some _ | Environment _, None => True | _, _ => False end) ->
+  c_zone (cache_refresh O mono w c) = zone_at O w.
+Proof. exact @switch_selects_again. Qed.
+Print Assumptions C18_switch_selects_again.
+
+Example C18_touch_inhabited : forall mono,
+  let stamp ops := option_map (fun c => (c_source c, c_last_checked c))
+                              (st_cur (exec (xoracle demo_world) mono (init_state (xinit demo_world)) ops)) in
+  stamp [Convert false noon] = Some (LocalTime 0, 0) /\
+  stamp (firstn 4 touch_history) = Some (LocalTime 0, 0) /\
+  stamp touch_history = Some (LocalTime 5, 1000000000) /\
+  answers (xoracle demo_world) mono (init_state (xinit demo_world)) touch_history = [VInt 0; VInt 0; VInt 0].
+Proof. exact touch_inhabited. Qed.
+Print Assumptions C18_touch_inhabited.
+
+Example C18_dispatch_inhabited :
+  run B"lc.history"
+    [VTup [VTup [VInt 0; VStr B"AAA-3"]; VTup [VInt 3; VInt 0; VTup [VInt 2020; VInt 100; VInt 43200; VInt 0]];
+           VTup [VInt 0; VStr B""]; VTup [VInt 6; VInt 1000];
+           VTup [VInt 3; VInt 1; VTup [VInt 2020; VInt 100; VInt 43200; VInt 0]]];
+     VTup [VTup []; VTup [VTup [VStr B"AAA-3"; VInt 10800]]; VNone];
+     VTup [VTup [VInt 0; VInt 0; VInt 0; VInt 0]; VTup [VInt 5; VInt 5; VInt 6; VInt 6]; VTup [VInt 7; VInt 7; VInt 8; VInt 8];
+           VTup [VInt 9; VInt 9; VInt 1000000009; VInt 1000000009]; VTup [VInt 1000000010; VInt 1000000010; VInt 1000000011; VInt 1000000011]]]
+  = VTup [VInt 10800; VTup [VInt 0]] /\
+  run B"lc.nothing" [] = VErr B"NOOP" /\ run B"lc.history" [] = VBad.
+Proof. exact dispatch_inhabited. Qed.
+Print Assumptions C18_dispatch_inhabited.
+
+(** ** End to end: state machine + explicit chain *)
+Theorem C18_freshness_chain : forall zone HASH ARG ANS (O : oracle zone HASH ARG ANS) mono,
+  hash_injective O -> forall w0 pre quiet_ops local d,
+  Forall (time_ok mono) (pre ++ quiet_ops) -> Forall keeps_tz quiet_ops ->
+  NANOS_PER_SEC <= elapsed quiet_ops ->
+  let s := exec O mono (init_state w0) (pre ++ quiet_ops) in
+  snd (step O mono s (Convert local d)) =
+    Some (o_answer O (match first_some [route O (st_world s) (shape_of (env_of (w_tz (st_world s))));
+                                        system_route O (st_world s)] with
+                      | Some z => z | None => o_utc O end) local d).
+Proof. exact freshness_chain. Qed.
+Print Assumptions C18_freshness_chain.
+
+Theorem C18_new_thread_chain : forall zone HASH ARG ANS (O : oracle zone HASH ARG ANS) mono (s : @state zone HASH) local d,
+  st_cur s = None ->
+  snd (step O mono s (Convert local d)) =
+    Some (o_answer O (match first_some [route O (st_world s) (shape_of (env_of (w_tz (st_world s))));
+                                        system_route O (st_world s)] with
+                      | Some z => z | None => o_utc O end) local d).
+Proof. exact new_thread_chain. Qed.
+Print Assumptions C18_new_thread_chain.
